@@ -443,6 +443,10 @@ def partitions(tier):
     if not quick:
         big += [129 - 53 + d for d in (-1, 0, 1)] + [255 - 46, 256 - 46, 300]
     ho("handover:128", [[[a, a + 7]] for a in big], "128", "128")
+    # a fragment boundary exactly on the boundary between two records of the
+    # request (the first record of the request message is 23 octets long) and
+    # of the response (first record 16 octets)
+    ho("handover:record-boundary", [[[a, a + 3]] for a in (0, 4, 30)], "23", "16")
     ho("handover:129", [[[a, a + 6]] for a in big], "129", "128")
     ho("handover:2175", [[[2175 - 56, 2175 - 49]], [[2175 - 57, 2175 - 48]],
                          [[2 * 2175 - 56, 40]]], "2175", "2175")
